@@ -4,9 +4,13 @@ mod data;
 mod e2;
 mod e2b;
 mod e2c;
+mod e2d;
+mod e2f;
+mod worker;
 mod scen;
 mod families;
 mod host;
+mod mon_err;
 mod mon_local;
 mod mon_state;
 mod mon_term;
@@ -36,7 +40,13 @@ fn main() {
             }
             let tier = if args[3] == "thorough" { Tier::Thorough } else { Tier::Quick };
             let t0 = std::time::Instant::now();
-            match props::check(&args[2], tier) {
+            let id = args[2].clone();
+            let res = std::panic::catch_unwind(move || props::check(&id, tier));
+            let res = match res {
+                Ok(r) => r,
+                Err(_) => Err(format!("the harness itself panicked: {}", host::take_last_panic().unwrap_or_default())),
+            };
+            match res {
                 Ok(rep) => std::process::exit(check::finish(rep, tier, t0)),
                 Err(e) => {
                     host::elog(&format!("MACHINERY-ERROR property={} {e}", args[2]));
@@ -44,6 +54,7 @@ fn main() {
                 }
             }
         }
+        "worker" => std::process::exit(worker::worker_main()),
         "replay" => {
             if args.len() < 3 {
                 usage();
